@@ -719,6 +719,97 @@ def task_sp2_padding_guard(ctx):
     ctx.undecided_clause("that the purification converges when there is a gap (SP2 now fails loudly after SP2_MAX_ITER steps instead of looping)")
 
 
+def replay_ksa_flag(model):
+    """real KSA run (AM1 H2CO, scf_eps 1e-8): the molecule is reported converged; its density is then pushed once through the
+    SCF map (one direct step of the constant-mixing driver with a huge threshold) and the Frobenius residual per matrix size is
+    compared with the bound 2*eps that get_error enforces for the other drivers."""
+    import torch
+    from seqm.seqm_functions.constants import Constants
+    from seqm.Molecule import Molecule
+    from seqm.ElectronicStructure import Electronic_Structure
+
+    torch.set_default_dtype(torch.float64)
+    species = torch.tensor([[8, 6, 1, 1]])
+    coords = torch.tensor([[[0.0, 0, 0], [1.22, 0.03, 0], [1.82, 0.94, 0.05], [1.82, -0.94, 0]]])
+
+    def run(conv, eps, P0=None):
+        params = {"method": "AM1", "scf_eps": eps, "scf_converger": conv, "sp2": [False, 1e-5], "elements": [0, 1, 6, 8], "learned": [], "pair_outer_cutoff": 1e10, "eig": True}
+        mol = Molecule(Constants(), params, coords.clone(), species)
+        es = Electronic_Structure(params)
+        es(mol, P0=P0)
+        return mol, es
+
+    rows, bad = [], False
+    size = 4 * 2 + 2  # sqrt of the number of matrix elements of the physical block (as matrix_size_sqrt in the drivers)
+    for eps in (1e-6, 1e-8):
+        for name, conv in (("KSA", [3, {"k": 6, "max_rank": 3, "err_threshold": 0.0, "T_el": 1500}]), ("adaptive", [1])):
+            mol, es = run(conv, eps)
+            P = mol.dm.detach().clone()
+            conv_flag = not bool(es.notconverged[0])
+            mol1, _ = run([0, 0.0], 1e3, P0=P.clone())
+            res = float(torch.linalg.norm(mol1.dm - P)) / size
+            rows.append({"solver": name, "eps": eps, "reported_converged": conv_flag, "||D(F(P)) - P||_F / size": res, "bound 2*eps": 2 * eps, "ratio to bound": res / (2 * eps)})
+            if name == "KSA" and conv_flag and res > 2 * eps * 5:
+                bad = True
+    return {"reproduced": bad, "input": "AM1 H2CO, KSA {max_rank 3, T_el 1500 K}", "rows": rows}
+
+
+def task_ksa_flag(ctx):
+    """O1 for the KSA driver: the statement that sets its convergence flag must clear the flag only if the energy change AND
+    a density residual are within bounds proportional to eps (the bounds get_error enforces for the other three drivers).
+    The flag statement of scf_forward3 is extracted from the source and evaluated on symbolic error arrays."""
+    from contracts.C07_differentiability import _quiet
+    import seqm.seqm_functions.scf_loop as S_
+
+    ctx.under_contract(SCF + ":scf_forward3", note="the statement `notconverged = ...` inside the KSA loop (extracted on every run) and the statements that fill err / dm_err")
+    tree = ast.parse(textwrap.dedent(inspect.getsource(S_.scf_forward3)))
+    flag_stmt = None
+    for n in ast.walk(tree):
+        if isinstance(n, ast.While):
+            for m in ast.walk(n):
+                if isinstance(m, ast.Assign) and isinstance(m.targets[0], ast.Name) and m.targets[0].id == "notconverged":
+                    flag_stmt = m
+    if flag_stmt is None:
+        ctx.error("anchor", "no assignment to `notconverged` inside the KSA loop")
+        return
+    code = compile(ast.Expression(flag_stmt.value), "<KSA flag statement>", "eval")
+    names = {x.id for x in ast.walk(flag_stmt.value) if isinstance(x, ast.Name)}
+    eps = real("eps")
+    err, dm = st.symbolic((2,), "err"), st.symbolic((2,), "dm_err")
+    size = st.symbolic((2,), "size")
+    env = {"torch": st, "err": err, "dm_err": dm, "eps": eps, "matrix_size_sqrt": size, "CONVERGENCE_DM_ERROR_FACTOR": S(E.frac_of_float(float(S_.CONVERGENCE_DM_ERROR_FACTOR))),
+           "CONVERGENCE_DM_ELEMENT_FACTOR": S(E.frac_of_float(float(S_.CONVERGENCE_DM_ELEMENT_FACTOR))), "nSuperHeavy": st.tensor([0, 0]), "nHeavy": st.tensor([1, 1]), "nHydro": st.tensor([1, 1])}
+    missing = names - set(env)
+    if missing:
+        ctx.error("anchor", "the flag statement reads names this contract does not provide: %r (statement: %s)" % (sorted(missing), ast.unparse(flag_stmt)))
+        return
+
+    def thunk():
+        assume(eps > 0)
+        for m in range(2):
+            assume(err.a[m] >= 0)
+            assume(dm.a[m] >= 0)
+            assume(size.a[m] > 0)
+        return eval(code, env)
+
+    ex = ctx.explore(thunk, name="ksa-flag")
+    f_dm = E.frac_of_float(float(S_.CONVERGENCE_DM_ERROR_FACTOR))
+    rep = []
+    for p in ex.paths:
+        if p.raised is not None:
+            ctx.fail("raises@p%d" % p.path_id, repr(p.raised) + p.notes.get("traceback", "")[-500:])
+            continue
+        flags = p.value
+        for m in range(2):
+            fl = flags.a[m] if isinstance(flags.a[m], Sym) else S(bool(flags.a[m]))
+            conv = ~fl
+            ctx.prove("mol%d.converged=>|dE|<=eps@p%d" % (m, p.path_id), Sym(E.implies(conv.n, (err.a[m] <= eps).n)), pc=p.pc)
+            ctx.prove("mol%d.converged=>density-residual<=%s*eps*size@p%d" % (m, f_dm, p.path_id), Sym(E.implies(conv.n, (dm.a[m] <= eps * f_dm * size.a[m]).n)), pc=p.pc,
+                      replay=lambda mdl: (rep or rep.append(_quiet(replay_ksa_flag)) or rep)[0], classify=lambda m_, r: "energy-only-convergence-test")
+    ctx.notes.append("KSA flag statement: " + ast.unparse(flag_stmt))
+    ctx.assume_note("err = |dE| and dm_err = ||D(F(P)) - P||_F as filled by the two statements before the flag (A2: Fermi_Q returns the density of the Fock matrix); size = sqrt of the number of physical matrix elements")
+
+
 def task_density_lemmas(ctx):
     """Given orthonormal occupied orbitals (A2), P = 2 C_occ C_occ^T is symmetric, has trace 2 nocc and (P/2)^2 = P/2."""
     for norb, nocc in ((2, 1), (3, 1), (3, 2)):
@@ -736,5 +827,5 @@ def task_density_lemmas(ctx):
     ctx.undecided_clause("commutator [F,P] = 0 and idempotency of the returned density in floating point")
 
 
-TASKS_QUICK = ["get_error", "scf_forward0", "scf_forward1", "scf_forward2_w0", "scf_forward2_w1", "scf_forward2_w2", "scf_forward2_w3", "termination", "padding_shift", "sp2_padding_guard", "density_lemmas"]
+TASKS_QUICK = ["get_error", "scf_forward0", "scf_forward1", "scf_forward2_w0", "scf_forward2_w1", "scf_forward2_w2", "scf_forward2_w3", "ksa_flag", "termination", "padding_shift", "sp2_padding_guard", "density_lemmas"]
 TASKS_THOROUGH = TASKS_QUICK
